@@ -616,6 +616,18 @@ fn run_once(case: &C13Case, slow: u32, facet: Facet) -> CaseResult {
                 }
                 Ok(None) => break, // listener dropped: task is gone
                 Err(_) => {
+                    // nothing has happened for a while: if the last thing the task was told is
+                    // "disable", it must have said Disabled by now
+                    if !end_requested && settings.last() == Some(&false) {
+                        let last = states.last().map(|s| state_name(&s.0));
+                        if last.is_some() && last != Some("Disabled") {
+                            return Err(format!(
+                                "disable() was the last setting sent and nothing else is pending, but {:?} after it the listener has not been told Disabled (last state {})",
+                                gate_wait,
+                                last.unwrap_or("?")
+                            ));
+                        }
+                    }
                     // nothing happens: inject an idle operation, or end the script
                     if end_requested {
                         return Err(format!(
